@@ -650,7 +650,29 @@ def rnd_rate(rng, layout, bad=None):
 
 
 LEVELS_INT = [1, 2, 3, 10]
-LEVELS_STR = ['2s1 3p1 3P4.0', '2S1 3P1 3p4.0', '2s1 3s1 3S1.0', '2S1 3s1 3s1.0', 'n=3', 'N=3', '3', '2', 'a', 'A']
+LEVELS_STR = ['2s1 3p1 3P4.0', '2S1 3P1 3p4.0', '2s1 3s1 3S1.0', '2S1 3s1 3s1.0', 'n=3', 'N=3', '3', '2', 'a', 'A',
+              # near-collisions: the documented key is str().lower() and nothing else
+              ' n=3', 'n=3 ', 'n= 3', ' a', 'a ', 'a b', 'a  b', '03', '3.0', ' 3', '2s1  3p1 3P4.0', '2s1 3p1 3P4.0 ']
+
+
+def level_variants(x):
+    """[(variant, aliases x under the documented encoding str().lower())] -- every normalisation a key helper might be
+    tempted to apply: padding, inner spacing, case, int <-> numeric string, numeric re-formatting"""
+    sx = str(x)
+    out = [(' ' + sx, False), (sx + ' ', False), (' ' + sx + ' ', False), ('\t' + sx, False), (sx + '\n', False)]
+    if ' ' in sx:
+        out += [(sx.replace(' ', '  ', 1), False), (sx.replace(' ', '', 1), False), (sx.replace(' ', '\t', 1), False),
+                (sx.replace(' ', '_', 1), False)]
+    if sx.lower() != sx.upper():
+        out += [(sx.swapcase(), True), (sx.upper(), True), (sx.lower(), sx.lower() != sx or True)]
+    if isinstance(x, int):
+        out += [(sx, True), ('0' + sx, False), (sx + '.0', False), (float(x), False), ('+' + sx, False)]
+    seen, res = set(), []
+    for v, alias in out:
+        if (repr(v)) not in seen and v != x:
+            seen.add(repr(v))
+            res.append((v, str(v).lower() == sx.lower()))
+    return res
 
 
 _pool = {'species': None, 'trans': None}
@@ -702,6 +724,8 @@ def rnd_path(rng, ufam, bad=None):
                     n = -rng.choice([1, 2])
             elif CHARGE_POS[ufam] == i:
                 n = rng.randint(0, min(z, 3)) if rng.random() < 0.8 else z
+                if z >= 10 and rng.random() < 0.4:
+                    n = rng.choice([1, 10, 11 if z >= 11 else 10, z])        # '1' / '10' / '11': prefixes of each other
                 if bad == 'charge':
                     n = z + rng.choice([1, 2, 5])
             else:                                                # donor charge
@@ -1412,7 +1436,9 @@ def gen_history(rng, length, default_root=False, pbad=0.15):
     # a spelling variant of the first one (same key by the property): swap case / int <-> str
     t0 = tr[0]
     var = ['T'] + [(str(x).swapcase() if isinstance(x, str) else str(x)) for x in t0[1:]]
-    _pool['trans'] = tr + [var]
+    pad = ['T'] + [(rng.choice([' %s', '%s ', ' %s ']) % x if i == rng.randrange(2) or isinstance(x, str) else x)
+                   for i, x in enumerate(t0[1:])]
+    _pool['trans'] = tr + [var, pad]
     ops = []
     for _ in range(length):
         root = None if default_root else rng.choice(['A', 'A', 'A', 'B'])
@@ -1579,6 +1605,21 @@ def targeted_histories():
                                            dict(kind='files', root='B', entries=ents + more, upper=True),
                                            dict(kind='files', root=None, entries=more)], []))
     hs.append(('populate', [dict(kind='populate', root='A')], []))
+    # key space with near-collisions of the transition component, every transition-keyed family: distinct keys (per the
+    # documented str().lower()) stay distinct -- the others untouched, the never-written ones raise -- and aliases alias
+    for gfam in ('wavelength', 'pecExcitation', 'pecRecombination', 'pecThermalCx', 'beamCx', 'beamEmission'):
+        ufam = GETF[gfam][2]
+        lay = UPD[ufam]['rate']
+        cls = PEC_CLASS.get(gfam, 'excitation')
+        for bi, base in enumerate([('2s2 1S0.0', '2p1 2P0.5'), (3, 2)]):
+            keys = [base]
+            for i in range(2):
+                for v, _alias in level_variants(base[i]):
+                    keys.append((v, base[1]) if i == 0 else (base[0], v))
+            probes = [(gfam, 'A', path_for(ufam, 2, t, m=1, cls=cls)) for t in keys]
+            ops = [dict(kind='add', fam=gfam, root='A', path=path_for(ufam, 2, t, m=1, cls=cls),
+                        rate=mk_rate(lay, 1.0 + j, (1 + j % 2, 1, 1)), bad='near-collision-key') for j, t in enumerate(keys)]
+            hs.append(('key-near-collisions:%s:%d' % (gfam, bi), ops, probes))
     # one update_pec_rates call with both spellings of a class key
     T3 = ['T', 3, 2]
     hs.append(('pec-mixed-case-class', [
@@ -1805,7 +1846,7 @@ def run(ctx):
     # generic theory (any tables), then the obligations on the tables generated from the current source, one module each
     # so that a violated table obligation does not hide the others
     cmds, ok_mod = [], {}
-    for mod in ('C06', 'C06Table', 'C06TableAdd', 'C06TableRoot', 'C06TableAll', 'C06TablePec'):
+    for mod in ('C06', 'C06Table', 'C06TableAdd', 'C06TableRoot', 'C06TableAll', 'C06TablePec', 'C06TableEnc'):
         ok_mod[mod] = ctx.lean_check(['Cherab.Props.' + mod], 'Cherab/Audit/%s.lean' % mod)
         cmds.append(ctx.checker_cmd)
     ctx.checker_cmd = ' ; '.join(cmds)
@@ -1855,6 +1896,16 @@ def run(ctx):
     # 1. targeted
     for label, ops, probes in targeted_histories():
         do(label, ops, probes)
+    # non-ASCII case pairs: one key by python's str.lower(); the model lower-cases ASCII only -> oracle only
+    Cn = ['E', 'carbon']
+    uni = [('\u00c91', 'x'), ('\u00e91', 'x'), ('e1', 'x'), ('\u00c91 ', 'x'), ('\u03a3a', 'B'), ('\u03c3a', 'b')]
+    do('key-near-collisions:unicode-case',
+       [dict(kind='add', fam='wavelength', root='A', path=[Cn, ['I', 1], ['T', u, l]], rate=100.0 + j, bad='unicode-case-key')
+        for j, (u, l) in enumerate(uni)] +
+       [dict(kind='add', fam='pecExcitation', root='A', path=[['C', 'excitation'], Cn, ['I', 1], ['T', u, l]],
+             rate=mk_rate('pec', 1.0 + j, (1, 1)), bad='unicode-case-key') for j, (u, l) in enumerate(uni)],
+       [('wavelength', 'A', [Cn, ['I', 1], ['T', u + ' ', l]]) for u, l in uni], model=False, full=True)
+    list_transition_monitor(ctx)
     for label, ops, probes, modelled in rejected_write_histories():
         do(label, ops, probes, model=modelled, full=True)
     # S only: level strings containing the separator are outside what the model is tied on
@@ -1907,9 +1958,14 @@ def encode_stream(ctx, rng):
     from cherab.openadas.repository.utility import encode_transition
     lv = LEVELS_INT + LEVELS_STR + ['1S2 2P', '1s2 2p', '-1', -1, 0, '0', 'X Y', 'x y', '']
     out = []
-    for _ in range(ctx.n(300, 3000)):
+    for it in range(ctx.n(400, 4000)):
         a = (rng.choice(lv), rng.choice(lv))
         b = (rng.choice(lv), rng.choice(lv))
+        if it % 2:
+            # a near-collision of a: one level replaced by one of its variants
+            i = rng.randrange(2)
+            v = rng.choice(level_variants(a[i]))[0]
+            b = (v, a[1]) if i == 0 else (a[0], v)
         ea, eb = encode_transition(a), encode_transition(b)
         if (ea == eb) != (tkey(a) == tkey(b)):
             ctx.fail('C06:encode_transition:key-equality', 'encode_transition(%r)=%r, encode_transition(%r)=%r' % (a, ea, b, eb),
@@ -1917,6 +1973,46 @@ def encode_stream(ctx, rng):
         ctx.case(key=('enc', str(a)))
         out.append(('enc %s %s' % (lvl_tok(a[0]), lvl_tok(a[1])), ea))
     return out
+
+
+def list_transition_monitor(ctx):
+    """a transition given as a list is the key of the same transition given as a tuple (the getters only unpack it); as a
+    dictionary key in add_* it is unhashable: TypeError, nothing written"""
+    from cherab.openadas import repository
+    w = World()
+    try:
+        R = w.path('A')
+        C = species('carbon')
+        repository.add_wavelength(C, 1, (3, 2), 500.0, repository_path=R)
+        repository.add_pec_excitation_rate(C, 1, ('2S', '1s'), mk_rate('pec', 1.0, (1, 1)), repository_path=R)
+        for t in ([3, 2], ['3', '2'], ('3', '2')):
+            try:
+                v = repository.get_wavelength(C, 1, t, repository_path=R)
+            except Exception as e:  # noqa
+                v = exc_kind(e)
+            ctx.case(key=('list-transition', repr(t)))
+            if v != 500.0:
+                ctx.fail('C06:get_wavelength:list-or-string-spelling-of-a-transition-not-aliased',
+                         'get_wavelength(C, 1, %r) -> %r after add_wavelength(C, 1, (3, 2), 500.0)' % (t, v), dict(transition=t))
+        for t in ([4, 2], [' 3', 2]):
+            try:
+                v = repository.get_wavelength(C, 1, t, repository_path=R)
+            except RuntimeError:
+                v = 'RuntimeError'
+            except Exception as e:  # noqa
+                v = exc_kind(e)
+            if v != 'RuntimeError':
+                ctx.fail('C06:get_wavelength:never-written-list-transition-readable',
+                         'get_wavelength(C, 1, %r) -> %r, never written' % (t, v), dict(transition=t))
+        before = w.listing()
+        st = _status(lambda: repository.add_wavelength(C, 1, [4, 2], 1.0, repository_path=R))
+        if st == 'ok' or w.listing() != before:
+            if _status(lambda: repository.get_wavelength(C, 1, (4, 2), repository_path=R)) != 'ok' or w.listing().keys() != before.keys():
+                ctx.fail('C06:add_wavelength:list-transition-half-written', 'add_wavelength(C, 1, [4, 2]) -> %s changed the '
+                         'repository without making (4, 2) readable' % st, dict(transition=[4, 2]))
+        ctx.count('list-transition-add:' + st)
+    finally:
+        w.close()
 
 
 def registry_monitor(ctx):
